@@ -15,7 +15,7 @@ from vt.mon import contracts, hooks
 PROP = 'C15'
 TITLE = 'simulation traces and derivations'
 SHARDS = {'quick': 16, 'thorough': 64}
-TIMEOUT = {'quick': 900, 'thorough': 3600}
+TIMEOUT = {'quick': 420, 'thorough': 3600}
 REQUIRED = ['dfa_simulate_word', 'nfa_simulate_word', 'pda_simulate_word', 'cfg_derive_word']          # the make_path probe is auxiliary (nested function of the library)
 EXHAUSTIVE_NOTE = 'all NFAs with <=2 states over <=1 symbol plus epsilon and all total DFAs <=2 states/<=2 symbols, each with all words up to the bound; everything else is sampled'
 RULE = ('cases are (automaton or CNF grammar, all words up to the bound): enumerated tiny automata, seeded random DFAs/NFAs/PDAs, epsilon self-loops and epsilon cycles of length 2..4 '
